@@ -142,6 +142,33 @@ def same_position_inserts(ld, rd):
             if f is not None and same_position_inserts(e.get('diff') or [], f.get('diff') or []): return True
     return False
 
+def walk_separated(ld, rd):
+    """Own walk over two diffs of the same container: do the two sides, AS THE DIFFER ALIGNED THEM, change different
+    items?  Sequences: no item removed/patched by both, no gap used by both, no insertion gap of one side adjacent to an
+    item the other side removed/patched.  Mappings: a key named by both sides must be patched by both, recursively."""
+    if not ld or not rd: return True
+    if all(isinstance(e.get('key'), int) and not isinstance(e.get('key'), bool) for e in ld + rd):
+        def info(d):
+            cells, gaps = set(), set()
+            for e in d:
+                if e['op'] == 'addrange': gaps.add(e['key'])
+                elif e['op'] == 'removerange': cells.update(range(e['key'], e['key'] + e['length']))
+                elif e['op'] == 'patch': cells.add(e['key'])
+            return cells, gaps
+        lc, lg = info(ld); rc, rg = info(rd)
+        if lc & rc or lg & rg: return False
+        if any(g in rc or (g - 1) in rc for g in lg): return False
+        if any(g in lc or (g - 1) in lc for g in rg): return False
+        return True
+    lk = {e['key']: e for e in ld}; rk = {e['key']: e for e in rd}
+    for k in set(lk) & set(rk):
+        a, b = lk[k], rk[k]
+        if a['op'] == 'patch' and b['op'] == 'patch':
+            if not walk_separated(a['diff'], b['diff']): return False
+        else:
+            return False
+    return True
+
 def touches_both(ld, rd):
     return bool(ld) and bool(rd)
 
@@ -201,11 +228,16 @@ def judge_symmetry(res1, res2):
             return 'symmetry-merged-differs', {'lr': m1['ok'], 'rl': m2['ok'], 'lr_decisions': d1['ok'][:5], 'rl_decisions': d2['ok'][:5]}, None
     return None, None, None
 
-def judge_disjoint(res, expected):
-    """C06: no decision conflicted and merged strictly equal to the by-construction expectation."""
+def judge_disjoint(res, expected, respect_alignment=False):
+    """C06: no decision conflicted and merged strictly equal to the by-construction expectation.
+    respect_alignment (notebook families): a triple whose diffs, as nbdime aligned them, do NOT change different
+    cells (possible when base holds near-identical cells, so that the construction's alignment is not the only one)
+    is outside the property's hypothesis; it is reported as ('excluded', ...) and counted."""
     if not isinstance(res, dict) or 'crash' in (res or {}):
         return 'disjoint-harness-crash', {'res': res}
     if diff_failed(res): return None, None
+    if respect_alignment and 'ld' in res and not walk_separated(res['ld'], res['rd']):
+        return 'excluded', 'alignment-not-separated'
     dec = res.get('decisions', {})
     if 'err' in dec:
         return 'disjoint-decide-raises:%s' % dec['err'], {'msg': dec.get('msg'), 'tb': dec.get('tb')}
